@@ -78,6 +78,33 @@ Definition iis (u : counts) (l : lut) (var : N) (value : string) : string * lut 
 
 Definition bool_str (b : bool) : string := if b then "true" else "false".
 
+(* lua.rs lua_string: a literal that the Lua lexer reads back as exactly the bytes of s *)
+Definition bs : string := String (Ascii.ascii_of_N 92) EmptyString.   (* one backslash *)
+Definition dq : string := String (Ascii.ascii_of_N 34) EmptyString.   (* one double quote *)
+Fixpoint lua_escape (s : string) : string :=
+  match s with
+  | EmptyString => EmptyString
+  | String a s' =>
+      let n := Ascii.N_of_ascii a in
+      (if n =? 92 then bs ++ bs
+       else if n =? 34 then bs ++ dq
+       else if n =? 10 then bs ++ "n"
+       else if n =? 13 then bs ++ "r"
+       else if n =? 0 then bs ++ "000"
+       else String a EmptyString) ++ lua_escape s'
+  end.
+Definition lua_string (s : string) : string := dq ++ lua_escape s ++ dq.
+
+Definition lua_keywords : list string :=
+  ["and"; "break"; "do"; "else"; "elseif"; "end"; "false"; "for"; "function"; "goto"; "if"; "in";
+   "local"; "nil"; "not"; "or"; "repeat"; "return"; "then"; "true"; "until"; "while"].
+Definition is_lua_keyword (s : string) : bool := existsb (String.eqb s) lua_keywords.
+(* `.field`, or `["field"]` when the name is reserved in Lua *)
+Definition lua_field (name : string) : string :=
+  if is_lua_keyword name then "[" ++ lua_string name ++ "]" else "." ++ name.
+Definition lua_key (name : string) : string :=
+  if is_lua_keyword name then "[" ++ lua_string name ++ "]" else name.
+
 Definition gen_one (u : counts) (l : lut) (op : ir) : string * lut :=
   let bin := fun t (pre mid post : string) a b => iis u l t (pre ++ expand l a ++ mid ++ expand l b ++ post) in
   match op with
@@ -89,8 +116,8 @@ Definition gen_one (u : counts) (l : lut) (op : ir) : string * lut :=
   | IMul t a b => bin t "(" " * " ")" a b
   | IDiv t a b => bin t "(" " / " ")" a b
   | INeg t a => iis u l t ("(-" ++ expand l a ++ ")")
-  | IStr t s => iis u l t ("""" ++ s ++ """")
-  | IFloat t r => iis u l t r
+  | IStr t s => iis u l t (lua_string s)
+  | IFloat t r => iis u l t (if String.eqb r "inf" then "math.huge" else r)
   | IEquals t a b => bin t "(" " == " ")" a b
   | ILessEqual t a b => bin t "(" " <= " ")" a b
   | ILess t a b => bin t "(" " < " ")" a b
@@ -99,7 +126,7 @@ Definition gen_one (u : counts) (l : lut) (op : ir) : string * lut :=
   | INotEquals t a b => bin t "(" " ~= " ")" a b
   | INot t a => iis u l t ("(not " ++ expand l a ++ ")")
   | IList t xs => iis u l t ("__LIST{ " ++ comma_sep l xs ++ " }")
-  | IBlob t fs => iis u l t ("__BLOB{ " ++ join ", " (map (fun fv => fst fv ++ " = " ++ expand l (snd fv)) fs) ++ " }")
+  | IBlob t fs => iis u l t ("__BLOB{ " ++ join ", " (map (fun fv => lua_key (fst fv) ++ " = " ++ expand l (snd fv)) fs) ++ " }")
   | ITuple t xs => iis u l t ("__TUPLE{ " ++ comma_sep l xs ++ " }")
   | IVariant t v a => iis u l t ("__VARIANT{ """ ++ v ++ """, " ++ expand l a ++ " }")
   | IIndex t a i => bin t "__INDEX(" ", " ")" a i
@@ -114,15 +141,15 @@ Definition gen_one (u : counts) (l : lut) (op : ir) : string * lut :=
   | IEnd => ("end", l)
   | ILoop => ("while true do", l)
   | IBreak => ("break", l)
-  | IReturn t => ("return " ++ expand l t, l)
+  | IReturn t => ("do return " ++ expand l t ++ " end", l)
   | IHalt msg => ("__CRASH(""" ++ msg ++ """)()", l)
-  | IAccess t a f => iis u l t (expand l a ++ "." ++ f)
+  | IAccess t a f => iis u l t (expand l a ++ lua_field f)
   | ICopy t a => if 0 <? count_of u t then ("local " ++ expand l t ++ " = " ++ expand l a, l) else ("", l)
   | IAssign t a => if 0 <? count_of u t then (expand l t ++ " = " ++ expand l a, l) else ("", l)
   | IAssignIndex t i a =>
       if 0 <? count_of u t then ("__ASSIGN_INDEX(" ++ expand l t ++ ", " ++ expand l i ++ ", " ++ expand l a ++ ")", l)
       else ("", l)
-  | IAssignAccess t f c => if 0 <? count_of u t then (expand l t ++ "." ++ f ++ " = " ++ expand l c, l) else ("", l)
+  | IAssignAccess t f c => if 0 <? count_of u t then (expand l t ++ lua_field f ++ " = " ++ expand l c, l) else ("", l)
   | ILabel lb => ("::" ++ fmt_label lb ++ "::", l)
   | IGoto lb => ("goto " ++ fmt_label lb, l)
   end.
